@@ -294,6 +294,7 @@ func runC12(p *core.Program, r *core.Report) {
 	}
 	r.Analysed["hex_prefix_letters"] = nHex
 	r.Floor("R12.1", 3)
+	positionRules(p, r, "R12.3")
 }
 
 func c12Controls() []core.Mutant {
@@ -301,6 +302,10 @@ func c12Controls() []core.Mutant {
 		{Name: "float test before the radix test", File: "parser/parser.go", Old: "\t\tif strings.ContainsAny(value, \"xX\") {", New: "\t\tif strings.ContainsAny(value, \".eE\") {\n\t\t\tif _, err := strconv.ParseFloat(value, 64); err != nil {\n\t\t\t\tp.error(\"invalid float literal: %v\", err)\n\t\t\t}\n\t\t} else if strings.ContainsAny(value, \"xX\") {", Rule: "R12.1", Construct: "hexadecimal"},
 		{Name: "classification test the rule cannot read", File: "parser/parser.go", Old: "\t\tif strings.ContainsAny(value, \"xX\") {", New: "\t\tif strings.ContainsAny(value, \"xX\") && len(value) > 2 {", Rule: "R12.1", Construct: "number classification"},
 		{Name: "uppercase prefix not recognised", File: "parser/parser.go", Old: "strings.ContainsAny(value, \"xX\")", New: "strings.ContainsAny(value, \"x\")", Rule: "R12.1", Construct: "prefix 0X"},
+		{Name: "string scanner fast path advances the column by a byte count", File: "parser/lexer/lexer.go", Old: "func (l *lexer) scanString(quote rune) (n int) {\n", New: "func (l *lexer) scanString(quote rune) (n int) {\n\tif i := strings.IndexAny(l.input[l.end:], \"\\\\\\n'\\\"\"); i > 0 {\n\t\tl.end += i\n\t\tl.loc.Column += i\n\t\tn += i\n\t}\n", Rule: "R12.3", Construct: "scanString"},
+		{Name: "number scanner restores the offset without the location", File: "parser/lexer/state.go", Old: "l.loc, l.prev, l.end = loc, prev, end", New: "_, _ = loc, prev\n\t\t\tl.end = end", Rule: "R12.3", Construct: "scanNumber"},
+		{Name: "token start offset re-saved without the start location", File: "parser/lexer/lexer.go", Old: "func (l *lexer) ignore() {\n\tl.start = l.end\n\tl.startLoc = l.loc\n}", New: "func (l *lexer) ignore() {\n\tl.start = l.end\n}", Rule: "R12.3", Construct: "ignore"},
+		{Name: "REFACTORING: acceptWord restores in two statements' worth of one tuple, renamed locals", File: "parser/lexer/lexer.go", Old: "\tpos, loc, prev := l.end, l.loc, l.prev\n", New: "\tloc, prev, pos := l.loc, l.prev, l.end\n", Silent: true},
 		{Name: "hex parsed in base 10", File: "parser/parser.go", Old: "number, err := strconv.ParseInt(value, 0, 64)", New: "number, err := strconv.ParseInt(value, 10, 64)", Rule: "R12.1", Construct: "hexadecimal"},
 	}
 }
